@@ -55,3 +55,22 @@ package cache
 //@   modifies nothing
 // representation invariant of a constructed MemoryCache (NewMemoryCache sets both counters)
 //@ spec func memOK(c *MemoryCache) bool = c.getTotal != nil && c.hitTotal != nil
+
+// releaseEntry (otter's deletion listener): the entry is cleared under its write lock - key and value gone, so a
+// reader that still holds the entry sees a recycled one and reports a miss -, its value buffer goes back to the
+// pool exactly once, and only then is the entry itself recycled.
+//@ func releaseEntry(e *cacheEntry)
+//@   props C20 C07
+//@   requires e != nil
+//@   ghost held bool = false
+//@   ghost nRel int = 0
+//@   ghost nPut int = 0
+//@   oncall Lock: held = true
+//@   oncall Unlock: held = false
+//@   oncall ReleaseBuf?: nRel = nRel + 1
+//@   oncall Put: nPut = nPut + 1
+//@   modifies *e, field(time.Time)
+//@   ensures [C07:recycled-entry-is-recognisable] e.v == nil && len(e.k) == 0
+//@   ensures [C20:value-buffer-released-once] nRel == (old(e.v) != nil ? 1 : 0) && !held && nPut == 1
+//@   callsite ReleaseBuf?: [C20:released-under-the-write-lock] held && sameSlice(arg0, old(e.v), 0, len(old(e.v)))
+//@   callsite Put: [C20:entry-recycled-after-it-was-cleared] !held && e.v == nil && len(e.k) == 0
